@@ -102,6 +102,10 @@ func c08prop(r *simkit.Run) {
 		if rapid.IntRange(0, 3).Draw(rt, "supplied-"+n) == 0 {
 			v := map[string]string{"X-Forwarded-Proto": rapid.SampledFrom([]string{"https", "http", "wss"}).Draw(rt, "xfp"), "X-Forwarded-Host": "front.example.org", "X-Forwarded-Port": "8443",
 				"X-Forwarded-Server": "edge-1", "X-Real-Ip": "203.0.113.9", "X-Forwarded-For": "203.0.113.9, 198.51.100.2"}[n]
+			if n == "X-Forwarded-For" {
+				// an upstream proxy may also send the field with nothing in it, or with a token instead of an address
+				v = rapid.SampledFrom([]string{v, v, "203.0.113.9", "", "unknown", "_hidden, 198.51.100.2"}).Draw(rt, "xff-value")
+			}
 			supplied[n] = v
 			add(n, v)
 		}
